@@ -260,6 +260,12 @@ def real_graph(cfg, style="legacy", fail_kind="exc", rid=None):
     return g
 
 
+def user_cache(cfg):
+    """A caller-supplied cache= mapping left over from an earlier call: it still holds OLD values of
+    literal keys of this graph (cfg["stale"]).  The graph's own literals must win."""
+    return {key(k): "STALE%d" % k for k in cfg.get("stale", [])}
+
+
 def real_request(r):
     if "k" in r:
         return key(r["k"])
@@ -430,6 +436,8 @@ def run_controlled(cfg, schedule=None, chooser=None, style="legacy", fail_kind="
         if cfg.get("pack"):
             from dask.threaded import pack_exception      # what threaded.get passes
             kw["pack_exception"] = pack_exception
+        if cfg.get("stale"):
+            kw["cache"] = user_cache(cfg)
         out = L.get_async(ctl.submit, cfg["nw"], g, real_request(cfg["req"]), chunksize=cfg["cs"],
                           callbacks=[rec.as_tuple()], **kw)
         obs["ret"] = fmt_result(cfg["req"], out)
